@@ -1,6 +1,6 @@
 \* C15 GEN: random scripts (simulation)
 CONSTANTS
- Docs = {"d1", "d2", "d3", "e", "n", "q", "o", "h", "u", "g"}
+ Docs = {"d1", "d2", "d3", "e", "n", "p", "q", "o", "h", "u", "g"}
  Mode = "seq"
  MaxEdits = 0
  MaxReqs = 12
